@@ -956,7 +956,7 @@ func (fr *Frame) doMakeSlice(x *ssa.MakeSlice, st *State) Val {
 	ex := fr.ex
 	ln := ex.val(fr, x.Len, st).one()
 	cp := ex.val(fr, x.Cap, st).one()
-	fr.oblige(st, "makelen", exprLabel(fr, x.Len), And(Le(Int(0), ln), Le(ln, cp), Le(cp, pow2(47))), x.Pos())
+	fr.oblige(st, "makelen", exprLabel(fr, x.Len), And(Le(Int(0), ln), Le(ln, cp), Le(cp, Int(maxElems(x.Type())))), x.Pos())
 	fr.allocObligation(st, x, ln)
 	et := under(x.Type()).(*types.Slice).Elem()
 	arr := ex.allocRef(st, "mkslice")
